@@ -89,6 +89,22 @@ def handle (ws : List String) : String :=
         match pos.toInt?, decSpans sp with
         | some pos, some sp => out (insertRe el (mode == "b") pos sp ts)
         | _, _ => "bad-op"
+      -- `moveend <p|b|a> <position> <spans|->`: `el` = the end tag `[op k lab, cl]`; it is inserted under a provisional label,
+      -- then the former end tag of that kind and label is deleted (set_reference_mark_end / insert_annotation_end)
+      | ["moveend", mode, pos, sp] =>
+        match el with
+        | [.op k lab h, .cl] =>
+          let tmp := 999999
+          let elTmp : Toks := [.op k tmp h, .cl]
+          if mode == "p" then
+            match pos.toNat? with
+            | some pos => out (moveEnd k lab tmp (fun t => insertPos elTmp pos t 0) ts)
+            | none => "bad-op"
+          else
+            match pos.toInt?, decSpans sp with
+            | some pos, some sp => out (moveEnd k lab tmp (fun t => insertRe elTmp (mode == "b") pos sp t) ts)
+            | _, _ => "bad-op"
+        | _ => "bad-op"
       | ["inspos", pos] =>
         match pos.toInt? with
         | some pos => if pos < 0 then encToks (appendElem el ts) else out (insertPos el pos.toNat ts 0)
